@@ -129,6 +129,15 @@ def extra_return(run, s, kw):
 def record_one(inst):
     """Worker entry: returns an encoded trace dict or a machinery-failure record."""
     try:
+        if inst.get("warm"):
+            # C19: an unrelated solve in the same process before the recorded one (repeated invocation must not leak state)
+            import dfols
+            import warnings
+            with warnings.catch_warnings():
+                warnings.simplefilter("ignore")
+                np.random.seed(4242)
+                dfols.solve(lambda x: np.array([10.0 * (x[1] - x[0] ** 2), 1.0 - x[0]]), np.array([-1.2, 1.0]), maxfun=25,
+                            user_params={"init.random_initial_directions": True})
         out = recorder.record(inst, timeout=float(inst.get("timeout", 60.0)), extra_return=extra_return, rng_state=inst.get("rng_state"))
     except recorder.WrapperError as e:
         return dict(machinery="recorder failed on instance %s: %s" % (inst.get("id"), e))
@@ -160,7 +169,7 @@ def record_one(inst):
     if ret and ret[-1]["ev"] == "Return":
         r = ret[-1]
         summ.update(flag=r["flag"], msgc=r["msgc"], nf=r["nf"], nruns=r["nruns"], jacok=r.get("jacok"), jacerr=r.get("jacerr"))
-    return dict(id=int(inst["id"]), cfg=enc["cfg"], ev=enc["ev"], summary=summ)
+    return dict(id=int(inst["id"]), cfg=enc["cfg"], ev=enc["ev"], summary=summ, refid=inst.get("refid"))
 
 
 def record_many(insts, nproc=None):
@@ -183,7 +192,7 @@ def _tlc_chunk(args):
     cfg_path = os.path.join(workdir, "T.cfg")
     os.makedirs(workdir, exist_ok=True)
     with open(cfg_path, "w") as f:
-        f.write('SPECIFICATION Spec\nCONSTANTS\n  Prop = "%s"\n  DefNaNCompare = %s\n  DefSwapNs = %s\nINVARIANT Report\nINVARIANT CountersInv\nCHECK_DEADLOCK FALSE\n'
+        f.write('SPECIFICATION Spec\nCONSTANTS\n  Prop = "%s"\n  DefNaNCompare = %s\n  DefSwapNs = %s\nINVARIANT Report\nCHECK_DEADLOCK FALSE\n'
                 % (prop, "TRUE" if defs.get("DefNaNCompare") else "FALSE", "TRUE" if defs.get("DefSwapNs") else "FALSE"))
     res = vlib.run_tlc("DfolsTrace.tla", cfg_path, workdir, workers=1, heap="2g", env={"TRACE_FILE": chunk_path}, timeout=3000)
     return res
@@ -193,15 +202,32 @@ def validate(prop, traces, workdir, nproc=None, chunk_events=25000, defs=None):
     """Validate encoded traces against DfolsTrace.tla.  Returns dict(per={id: [[clause, l], ...]}, generated, distinct, wall)."""
     defs = defs or {}
     nproc = nproc or min(vlib.NCPU, 12)
-    chunks, cur, n = [], [], 0
+    # traces that name a reference trace (C19) stay in the chunk of their reference; cfg.ref = 1-based position of the reference in the chunk
+    groups, bykey = [], {}
     for t in traces:
-        cur.append(dict(id=t["id"], cfg=t["cfg"], ev=t["ev"]))
-        n += len(t["ev"])
+        key = t.get("refid") or t["id"]
+        if key not in bykey:
+            bykey[key] = []
+            groups.append(bykey[key])
+        bykey[key].append(t)
+    chunks, cur, n = [], [], 0
+    for g in groups:
+        g = sorted(g, key=lambda t: 0 if not t.get("refid") else 1)
+        for t in g:
+            cur.append(dict(id=t["id"], cfg=dict(t["cfg"]), ev=t["ev"], refid=t.get("refid")))
+            n += len(t["ev"])
         if n >= chunk_events:
             chunks.append(cur)
             cur, n = [], 0
     if cur:
         chunks.append(cur)
+    for ch in chunks:
+        pos = {t["id"]: i + 1 for i, t in enumerate(ch)}
+        for t in ch:
+            rid = t.pop("refid", None)
+            t["cfg"]["ref"] = pos.get(rid, 0) if rid else 0
+            if rid and rid not in pos:
+                raise vlib.MachineryError("reference trace %s of trace %s is missing" % (rid, t["id"]))
     jobs = []
     for ci, ch in enumerate(chunks):
         wd = os.path.join(workdir, "chunk%d" % ci)
@@ -216,8 +242,10 @@ def validate(prop, traces, workdir, nproc=None, chunk_events=25000, defs=None):
         results = list(ex.map(_tlc_chunk, jobs))
     for (prop_, p, wd, _), res, ch in zip(jobs, results, chunks):
         if not res["ok"]:
-            tail = "\n".join(res["out"].splitlines()[-30:])
-            raise vlib.MachineryError("trace validation did not complete (%s):\n%s" % (p, tail))
+            lines = res["out"].splitlines()
+            errs = [i for i, ln in enumerate(lines) if ln.startswith("Error") or "exception" in ln.lower()]
+            ctx = "\n".join("\n".join(lines[i:i + 8]) for i in errs[:3])
+            raise vlib.MachineryError("trace validation did not complete (%s):\n%s\n...\n%s" % (p, ctx[:3000], "\n".join(lines[-5:])))
         gen += res["generated"]
         dist += res["distinct"]
         done = vlib.extract_printed(res["out"], "DONE")
